@@ -30,6 +30,16 @@ func init() {
 		"verifReach":   intrReach,
 		"verifObserve": intrObserve,
 		"verifParam":   intrParam,
+		// verifHashCalls(name): number of cryptographic hash computations made so far on this path; the
+		// value is pinned to a model variable so that the native replay (real hash, no counter) sees it
+		"verifHashCalls": func(fr *frame, a []value) value {
+			in := fr.i
+			in.hashEpochCheck()
+			n := asIntAny(in.tmp["hashInvocations"])
+			v := in.freshVar(cstr(a[0]), 32)
+			in.pc = append(in.pc, in.ctx.Eq(v, in.ctx.Const(32, uint64(n))))
+			return n
+		},
 		"verifRaceMonitor": func(fr *frame, a []value) value {
 			on, _ := a[0].(bool)
 			fr.i.race = &raceMon{on: on, acc: map[*value][]raceAccess{}, held: map[*value]bool{}}
@@ -200,9 +210,15 @@ func intrAssert(fr *frame, a []value) value {
 	}
 	switch r {
 	case Sat:
+		note := ""
+		if m2, ok := in.refineHashModel(neg, m); ok {
+			m = m2
+		} else {
+			note = " (under the uninterpreted hash model only: no model with real digests found)"
+		}
 		in.curPath.Site = site
 		in.curPath.Model = m
-		panic(pathEnd{"violation", "assertion " + site + " can fail"})
+		panic(pathEnd{"violation", "assertion " + site + " can fail" + note})
 	case Unknown:
 		panic(pathEnd{"inconclusive", "solver unknown on assertion " + site})
 	}
